@@ -149,8 +149,8 @@ PLANS = {
                 thorough=dict(mc=(3, 8), n=3, maxkeys=8, limit=None,
                               prefixes=[(), (1,), (0, 1, 1, 0, 1), (1, 0, 1, 1, 0, 1), (1, 0, 1, 1, 0, 1, 0), tuple([1, 0] * 6)],
                               modes=["committed", "overlay", "reopen"], mutants=0, multis=0, updates=0, extra_n4=400)),
-    "C07": dict(quick=dict(mc=(3, 4), n=3, maxkeys=8, limit=120, prefixes=[(), (0, 1)], modes=["committed"],
-                           mutants=0, multis=6, updates=3),
+    "C07": dict(quick=dict(mc=(3, 4), n=3, maxkeys=8, limit=160, prefixes=[(), (0, 1)], modes=["committed"],
+                           mutants=0, multis=12, updates=3),
                 thorough=dict(mc=(3, 8), n=3, maxkeys=8, limit=None, prefixes=[(), (1,), (0, 1, 1, 0, 1, 1)],
                               modes=["committed", "reopen"], mutants=0, multis=12, updates=6, extra_n4=400)),
     "C08": dict(quick=dict(mc=(3, 4), n=3, maxkeys=8, limit=100, prefixes=[(), (0, 1)], modes=["committed"],
